@@ -171,7 +171,7 @@ PROPS['C08'] = {
         H(ROOT + 'c08::c08_k_owned_command', ['impl TryFrom<&Command<S>> for ctap1::Request'], kind='bounded',
           bound='S = 72', tier='thorough', timeout=1500),
         H(ROOT + 'c08::c08_k_apdu_65600', ['impl TryFrom<CommandView> for ctap1::Request'], tier='thorough',
-          timeout=3600, mem_gb=48, note='the whole short + extended APDU domain (about 25 minutes, 10+ GB in CBMC)'),
+          timeout=3600, mem_gb=None, note='the whole short + extended APDU domain (about 25 minutes, 10+ GB in CBMC; no address-space limit: the Kani driver itself cannot allocate under one while it reads the CBMC result)'),
     ],
     'assumptions': ['AV', 'AK', 'AS', 'AX'],
     'explanation': 'Unbounded proof: Verus verifies the real `TryFrom<CommandView> for ctap1::Request` (unit c08_apdu_request) against the '
